@@ -93,6 +93,19 @@ class CompositeTransform(SpatialTransform):
         super().__init__(grid)
         self._transforms = ModuleDict(transforms)
 
+    def __copy__(self: TCompositeTransform) -> TCompositeTransform:
+        r"""Make shallow copy of this transformation and of the transformations it is composed of.
+
+        The copies of the individual transformations share their parameters with the original ones,
+        but conditioning, grid, or buffers of the copies can be changed without modifying the originals.
+
+        """
+        copy = super().__copy__()
+        copy._transforms = ModuleDict(
+            {name: shallow_copy(transform) for name, transform in self.named_transforms()}
+        )
+        return copy
+
     def bool(self) -> bool:
         r"""Whether this module has at least one transformation."""
         return len(self._transforms) > 0
